@@ -316,10 +316,15 @@ func (ipv6cp *IPV6CPStateMachine) receiveConfigureRequest(pkt *LCPPacket) error 
 	}
 
 	// Send response
+	respData := SerializeLCPOptions(respOpts)
+	if respCode == LCPCodeConfigAck {
+		// An Ack repeats the request's options exactly as received
+		respData = pkt.Data
+	}
 	resp := &LCPPacket{
 		Code:       respCode,
 		Identifier: pkt.Identifier,
-		Data:       SerializeLCPOptions(respOpts),
+		Data:       respData,
 	}
 	ipv6cp.sendPacket(ProtocolIPv6CP, resp.Serialize())
 
